@@ -12,7 +12,7 @@ import tempfile
 VERIF = os.path.dirname(os.path.dirname(os.path.abspath(__file__)))
 
 TOUCH = {
-    "RingBuffer.h": ["C04", "C09"], "Array.h": ["C14", "C17"], "Resource": ["C01", "C02", "C03", "C12", "C11", "C15"],
+    "RingBuffer.h": ["C04", "C09"], "RandomAccessIndexIterator.h": ["C04", "C14"], "Array.h": ["C14", "C17"], "Resource": ["C01", "C02", "C03", "C12", "C11", "C15"],
     "ThreadPool": ["C07", "C08", "C15"], "Thread.h": ["C20", "C07", "C08", "C15"], "Thread.cpp": ["C20", "C07", "C08", "C15"],
     "ConcurrentSubjectRouter.h": ["C11", "C15", "C06", "C13"], "SubjectRouter": ["C06", "C13", "C11", "C15"],
     "Subject.h": ["C05", "C10", "C16", "C06", "C13", "C15"], "Observable.h": ["C16"], "LocaleInfo.cpp": ["C19"],
